@@ -1,7 +1,7 @@
 """C16 -- gap-degree kernel under contract."""
 import z3
 from pyvc.core import Contract
-from pyvc.sym import (VInt, VBool, VRef, VList, INT, BOOL, STR, REF, TList, forall, implies, conj, disj, neg,
+from pyvc.sym import (VInt, VBool, VRef, VList, INT, BOOL, STR, REF, TList, TRec, forall, implies, conj, disj, neg,
                       ite, length, fresh_name, tobool, toint, qforall)
 from contracts.common import add_common, WF, cbreaks, gapdeg, terms_facts, T_idx, cbreaks_mono, lemma_cbreaks_mono, cbreaks_break, lemma_cbreaks_break
 
@@ -9,7 +9,8 @@ LEMMAS = {"cbreaks_mono": lemma_cbreaks_mono, "cbreaks_break": lemma_cbreaks_bre
 
 VERIFY = ["trees.treeanalysis.gap_degree_node", "trees.treeanalysis.has_gaps",
           "trees.treeanalysis.gap_type", "trees.trees.terminal_blocks", "trees.treeanalysis.gap_degree",
-          "trees.treeanalysis.SentenceCount.run"]
+          "trees.treeanalysis.SentenceCount.run", "trees.treeanalysis.PosTags.run",
+          "trees.treeanalysis.GapDegree.run"]
 SHARDS = {"trees.trees.terminal_blocks": 8}
 
 TRUSTED = ["definition: gap degree of a node := cbreaks(nums(T(node)), |T|-1), the number of i with "
@@ -191,3 +192,107 @@ def build(reg):
         ensures={"counts_one_sentence": lambda S, self, tree, result:
                  VBool(toint(S.final("self").fields["cnt"]) == toint(self.fields["cnt"]) + 1)},
         result_type=INT))
+
+    # ---- PosTags.run: one tag per token, in token order
+    from pyvc.sym import TMap, VMap, TOpt, _sel, key_term, INT_KEY, KEY_INT, KeyS, qforall as _qf
+
+    def sv(x):
+        """string term of a list element that may be wrapped as 'possibly None'"""
+        return x.val.t if hasattr(x, "isnone") else x.t
+
+    def pt_inv(S):
+        H, tree, it = S.H, S.tree, toint(S.it)
+        tags, tags0 = S.final("self").fields["tags"], S.entry("self").fields["tags"]
+        T = H.terms(tree)
+        j = z3.Int(fresh_name("tj"))
+        return conj(VBool(tags.n == tags0.n + it),
+                    VBool(z3.ForAll([j], z3.Implies(z3.And(0 <= j, j < tags0.n), sv(tags.get(j)) == sv(tags0.get(j))))),
+                    VBool(z3.ForAll([j], z3.Implies(z3.And(0 <= j, j < it),
+                                                    sv(tags.get(tags0.n + j)) == H.label(T.get(j)).t))))
+
+    def pt_post(S, self, tree, result):
+        H = S.H
+        tags, tags0 = S.final("self").fields["tags"], self.fields["tags"]
+        T = H.terms(tree)
+        j = z3.Int(fresh_name("tj"))
+        return VBool(z3.And(tags.n == tags0.n + T.n,
+                            z3.ForAll([j], z3.Implies(z3.And(0 <= j, j < tags0.n), sv(tags.get(j)) == sv(tags0.get(j)))),
+                            z3.ForAll([j], z3.Implies(z3.And(0 <= j, j < T.n),
+                                                      sv(tags.get(tags0.n + j)) == H.label(T.get(j)).t))))
+
+    def pt_requires(S, self, tree):
+        H = S.H
+        T = H.terms(tree)
+        j = z3.Int(fresh_name("tj"))
+        return conj(WF(H, tree), tree != None,
+                    VBool(z3.ForAll([j], z3.Implies(z3.And(0 <= j, j < T.n), z3.And(
+                        H.has(T.get(j), "label").t, z3.Not(H.data(T.get(j), "label").isnone))))))
+
+    reg.add(Contract(
+        target="trees.treeanalysis.PosTags.run", prop="C16", args=dict(self=TRec(tags=TList(STR)), tree=REF),
+        requires=pt_requires,
+        ensures={"one_tag_per_token_in_order": pt_post}, result_type=INT,
+        loops={0: dict(inv=pt_inv, types={"self": TRec(tags=TList(STR))})}))
+
+    # ---- GapDegree.run: per-degree counters
+    def cnt_fn(H):
+        """cnt(tree, d, k) = number of constituents among the first k nodes of P(tree) whose gap degree is d;
+        mx(tree, k) = the largest gap degree among them (0 if none)"""
+        args = H._shape_args()
+        sorts = [a.sort() for a in args]
+        key = "cnt"
+        if not hasattr(cnt_fn, "cache"):
+            cnt_fn.cache = {}
+        if key not in cnt_fn.cache:
+            I = z3.IntSort()
+            f = z3.RecFunction("gd_cnt", *(sorts + [I, I, I, I]))
+            g = z3.RecFunction("gd_max", *(sorts + [I, I, I]))
+            ps = [z3.Const("gc_p%d" % i, srt) for i, srt in enumerate(sorts)]
+            x, d, k = z3.Ints("gc_x gc_d gc_k")
+            from pyvc.heap import Heap
+            Hs = Heap(dict(zip(["parent", "nchild", "child", "has_num", "val_num"], ps)))
+            node = lambda q: Hs.pre(VRef(x)).get(q)
+            isc = lambda q: Hs.nchild_t(node(q).t) > 0
+            gdq = lambda q: gapdeg(Hs, node(q)).t
+            z3.RecAddDefinition(f, ps + [x, d, k], z3.If(k <= 0, 0, f(*(ps + [x, d, k - 1])) +
+                                                        z3.If(z3.And(isc(k - 1), gdq(k - 1) == d), 1, 0)))
+            prev = g(*(ps + [x, k - 1]))
+            cur = z3.If(isc(k - 1), gdq(k - 1), 0)
+            z3.RecAddDefinition(g, ps + [x, k], z3.If(k <= 0, 0, z3.If(prev >= cur, prev, cur)))
+            cnt_fn.cache[key] = (f, g)
+        f, g = cnt_fn.cache[key]
+        return (lambda tree, d, k: f(*(args + [tree.t, d, k]))), (lambda tree, k: g(*(args + [tree.t, k])))
+
+    def mval(m, d):
+        """value of a counter dict at integer key d (0 when absent)"""
+        kt = INT_KEY(d)
+        return z3.If(_sel(m.pres[0], [kt]), _sel(m.val, [kt]), 0)
+
+    GD_SELF = TRec(gaps_per_node=TMap(1), gaps_per_tree=TMap(1))
+
+    def gd_inv(S):
+        H, tree, it = S.H, S.tree, toint(S.it)
+        cnt, mx = cnt_fn(H)
+        m, m0 = S.final("self").fields["gaps_per_node"], S.entry("self").fields["gaps_per_node"]
+        t, t0 = S.final("self").fields["gaps_per_tree"], S.entry("self").fields["gaps_per_tree"]
+        d = z3.Int(fresh_name("gd"))
+        return conj(VBool(toint(S.tree_gap_deg) == mx(tree, it)), VBool(toint(S.tree_gap_deg) >= 0),
+                    VBool(z3.ForAll([d], mval(m, d) == mval(m0, d) + cnt(tree, d, it))),
+                    VBool(z3.ForAll([d], mval(t, d) == mval(t0, d))))
+
+    def gd_run_post(S, self, tree, result):
+        H = S.H
+        cnt, mx = cnt_fn(H)
+        P = H.pre(tree)
+        m, m0 = S.final("self").fields["gaps_per_node"], self.fields["gaps_per_node"]
+        t, t0 = S.final("self").fields["gaps_per_tree"], self.fields["gaps_per_tree"]
+        d = z3.Int(fresh_name("gd"))
+        return VBool(z3.And(
+            z3.ForAll([d], mval(m, d) == mval(m0, d) + cnt(tree, d, P.n)),
+            z3.ForAll([d], mval(t, d) == mval(t0, d) + z3.If(d == mx(tree, P.n), 1, 0))))
+
+    reg.add(Contract(
+        target="trees.treeanalysis.GapDegree.run", prop="C16", args=dict(self=GD_SELF, tree=REF),
+        requires=lambda S, self, tree: conj(WF(S.H, tree), tree != None, wf_theory(S.H)),
+        ensures={"per_degree_counters": gd_run_post}, result_type=INT,
+        loops={0: dict(inv=gd_inv, types={"self": GD_SELF})}))
